@@ -12,15 +12,15 @@ def hook_commits():
 
 CHECKS = {
  "C01": dict(level="model_checking", engine="E-HIST", design="5/C01",
-   technique="explicit-state BFS over the real dhcp::handle_pkt + SQLite store (exact-state dedup), oracle on every transition",
+   technique="explicit-state BFS over the real dhcp::handle_pkt + SQLite store (exact-state dedup) from 5 root stores, oracle on every transition; plus every history of length 3 (thorough 4) on one never-reopened Pool (no dedup); plus a consequence search wherever the store diverges from what the clients were told",
    text="Every history over the message/config/clock alphabet up to the completed depth is executed on the real handler and real SQLite store; the double-lease oracle is evaluated on every transition, each on a freshly opened store (restart between any two messages).",
    note="Bounds: <=3 clients, <=5 configurations with 1-2 address pools, depth as reported, from 5 roots (the empty store and 4 stores that long histories reach: 24 h leases mid-life and expired, two clients). Trusted: SQLite, the clock interposition, time-shift invariance of pool.rs (argued in DESIGN.md 2)."),
  "C09": dict(level="model_checking", engine="E-HIST", design="5/C09",
-   technique="explicit-state BFS over the real dhcp::handle_pkt + SQLite store, keep-your-address and exhaustion oracles on every transition",
+   technique="explicit-state BFS over the real dhcp::handle_pkt + SQLite store, keep-your-address and exhaustion oracles on every transition; long-lived histories on one Pool; told-record consequence search (reply-level clauses judged against what clients were told when the store mis-records it)",
    text="Same search as C01; on every transition the reply (or refusal) is compared with the set of unexpired leases the client holds inside the pool it is served from, the pool being stated independently by the harness per configuration.",
    note="Pool membership per (config, interface, client) is hand-stated in the harness for the 5 alphabet configurations; general policy evaluation is C02/C11's subject."),
  "C10": dict(level="model_checking", engine="E-HIST", design="5/C10",
-   technique="explicit-state BFS over the real dhcp::handle_pkt + SQLite store with renewal-rhythm clock steps, lease-time oracle on every reply",
+   technique="explicit-state BFS over the real dhcp::handle_pkt + SQLite store with renewal-rhythm clock steps and configurations whose policies try to set option 51/54 (K6/K7), lease-time oracle on every reply; long-lived histories on one Pool",
    text="Every OFFER/ACK produced anywhere in the explored history space is checked for option 51, its bounds and its agreement with the recorded row.",
    note="Bounds 300..86400 are the defaults; no configuration key reaches minlease/maxlease in this tree. The 24 h cap is only reachable after ~9 doublings, so the search also starts from stores holding long leases (deep roots) and has 30000 s / 100000 s clock steps."),
  "C13": dict(level="model_checking", engine="E-HIST", design="5/C13",
@@ -42,7 +42,7 @@ CHECKS = {
  "C05": dict(level="exploration", engine="E-ENUM", design="5/C05",
    technique="bounded-exhaustive byte-string enumeration (all strings <=3 octets; seeds x every offset x all 256 values; all marked-field pairs x boundary values; every truncation) through the real decoders and receive-path code, panic hook + overflow checks on",
    text="Every network-facing decoder plus the code its receive path runs on the decoded value (handle_pkt, option logging, reply framing; DNS accessors used by listener, cache and upstream-result paths; LLDP TLV logging) is run on the whole enumerated input set; any panic/overflow/out-of-bounds is a violation; afterwards each handler must still answer a valid request.",
-   note="In-process; the LLDP 14-octet frame skip and socket loops are not executed. Log statements are formatted (trace logger installed)."),
+   note="Runs in a supervised child process: an abort (stack overflow) or a hang (120 s per input) is reported as a violation naming the input. The LLDP 14-octet frame skip and socket loops are not executed. Log statements are formatted (trace logger installed)."),
  "C17": dict(level="exploration", engine="E-ENUM", design="5/C17",
    technique="bounded-exhaustive enumeration of interface configurations (full product inside each option group x top-level defaults x 3 base contexts) through the real YAML loader, builder and serialiser, decoded by an independent RFC 4861/8106/8781/8910 decoder and compared with expected(config)",
    text="Every configuration of the grammar is loaded by the real loader, built and serialised by the real code and decoded by an independent decoder that enforces 8-octet alignment, zero reserved fields and zero prefix bits beyond the length; decoded values must equal what the configuration means, unrepresentable values may only be rejected or clamped.",
@@ -72,7 +72,7 @@ CHECKS = {
    text="For every TTL vector of the grammar the real calculate_expiry/insert/get_entry/expire are driven at 8 instants around the expiry with 7 probe keys, before and after an expiry sweep: a hit requires the same key and elapsed <= min TTL, served TTLs = original - floor(elapsed), no wrap (overflow checks on). The live part asks the same question at +0, +1.5 s and just past expiry over UDP and TCP, class IN and CH, and varies each key component.",
    note="The hook's insert is unconditional like the private function; the 'only cache when lifetime > 0' rule is decided by the live part. Case variants of a name and the query's AD bit are don't-care."),
  "C18": dict(level="fault_enumeration", engine="E-HIST (history mode) + E-CRASH", design="5/C18",
-   technique="exhaustive kill-point enumeration (a child process dies before every write-class libc call SQLite issues, by symbol interposition) plus exhaustive history enumeration with a reopen-differential at every step, plus enumeration of v0/newer-version databases",
+   technique="exhaustive kill-point enumeration (a child process dies before every write-class libc call SQLite issues, by symbol interposition) plus exhaustive history enumeration with a reopen-differential at every step (file-backed, and in memory over a wider alphabet), plus enumeration of v0/newer-version databases",
    text="Every write-class syscall of each history (set-up of a fresh store, upgrade of a v0 store, 1-4 colliding allocations) is a kill point; after each kill the file must reopen, hold exactly the state after j or j+1 acknowledged operations, and continue like the uninterrupted run. Restart equivalence is decided by comparing, at every message of every history, the long-lived store with a store reopened on a copy of its file.",
    note="Process kill, not power loss (the page cache survives). _exit before the call stands in for SIGKILL. Scratch files live in /dev/shm (tmpfs) and are removed."),
  "C20": dict(level="model_checking", engine="E-HIST + HTTP rig", design="5/C20",
@@ -80,7 +80,7 @@ CHECKS = {
    text="Gauges are compared with the store for every reachable store of the search and every clock value at each row's expiry -1/+0/+1 (and the empty store after non-empty ones); the listing is requested from the real HTTP API over the unix control socket for stores holding one lease per enumerated host-name/identifier value and compared entry by entry with the rows.",
    note="The boundary instant is judged exactly as stated (expiry <= now is expired). The DhcpService is built by the verif_new hook (ephemeral UDP port instead of 67)."),
  "C02": dict(level="exploration", engine="E-ENUM + drain histories", design="5/C02",
-   technique="bounded-exhaustive enumeration of configurations (every prefix length x server/reserved address placement; policy trees over a 16-address universe) through the real YAML loader; pools observed by build_default_config and by draining the real handle_pkt with fresh clients until exhaustion, compared with an independent reference of the documented sets",
+   technique="bounded-exhaustive enumeration of configurations (every prefix length x server/reserved address placement; policy trees over a 16-address universe) through the real YAML loader; every history of length 3 (thorough 4) across pool changes / interfaces / a reservation on one never-reopened Pool judged by the outside-pool oracle; pools observed by build_default_config and by draining the real handle_pkt with fresh clients until exhaustion, compared with an independent reference of the documented sets",
    text="For the addresses form the computed pool must equal hosts - server - reserved for every prefix length; for policy trees every (tree, hardware address) pool is drained through the real handler and the set of addresses handed out must equal the documented pool (own addresses minus everything added by sub-policies, first matching sibling, condition-less policies apply iff a sub-policy does).",
    note="Don't-care: overlapping pools of sibling policies, the server's own address inside an explicit pool. Prefixes shorter than /10 are not materialised (resource use)."),
  "C19": dict(level="exploration", engine="E-ENUM", design="5/C19",
